@@ -36,9 +36,10 @@ type CMsg struct {
 	Big     bool   `json:"big"`
 	Block   string `json:"block"`
 	Idn     string `json:"idn"`
-	Match   bool   `json:"match"`
+	Lens    string `json:"lens"`
 	Nids    int    `json:"nids"`
-	Idhex   string `json:"idhex"`
+	Badid   string `json:"badid"`
+	Sigpos  string `json:"sigpos"`
 	Bidsig  string `json:"bidsig"`
 	Digest  string `json:"digest"`
 }
@@ -50,8 +51,11 @@ type CCase struct {
 	M     CMsg            `json:"m"`
 	Bytes string          `json:"bytes"`
 	Recv  string          `json:"recv"`
-	Mode  string          `json:"mode"` // "handle" | "send" | "stress"
-	Raw   json.RawMessage `json:"-"`    // the JSON text TLC printed (goes into the trace unchanged)
+	Mode  string          `json:"mode"`  // "handle" | "send" | "stress"
+	Ver   string          `json:"ver"`   // envelope version class
+	Tp    string          `json:"tp"`    // class of the pubsub topic field
+	Instv string          `json:"instv"` // instance id value when m.inst is false
+	Raw   json.RawMessage `json:"-"`     // the JSON text TLC printed (goes into the trace unchanged)
 }
 
 func TopicName(t string) string {
@@ -190,10 +194,21 @@ func flavourSignature(extra string, inst, eon, slot, txp uint64, ids [][]byte, k
 }
 
 // BuildC05 builds the p2pmsg message of a message class for a node of flavour fl.
-func (w *World) BuildC05(fl string, m CMsg) p2pmsg.Message {
+func (w *World) BuildC05(fl string, m CMsg, instv string) p2pmsg.Message {
 	inst := uint64(InstanceID)
 	if !m.Inst {
-		inst = InstanceID + 1
+		switch instv {
+		case "m1":
+			inst = InstanceID - 1
+		case "zero":
+			inst = 0
+		case "p63":
+			inst = 1 << 63
+		case "max":
+			inst = ^uint64(0)
+		default:
+			inst = InstanceID + 1
+		}
 	}
 	switch m.Ty {
 	case "shares", "keys":
@@ -296,9 +311,22 @@ func (w *World) BuildC05(fl string, m CMsg) p2pmsg.Message {
 				who = signers[i]
 			}
 			q := m.Sigq
-			if i >= len(signers) {
-				q = "valid" // the surplus signature is a genuine one of another keyper
+			if i >= len(signers) { // the surplus signature is by another keyper
 				who = NKeypers - 1
+			}
+			switch m.Sigpos { // the other signatures are genuine
+			case "first":
+				if i != 0 {
+					q = "valid"
+				}
+			case "last":
+				if i != nsigs-1 {
+					q = "valid"
+				}
+			default: // all signatures that have a signer; the surplus one is genuine
+				if i >= len(signers) {
+					q = "valid"
+				}
 			}
 			sigs = append(sigs, w.sigOfQuality(q, fmt.Sprintf("keys-%d", i),
 				func(k *ecdsa.PrivateKey) []byte { return flavourSignature(m.Extra, inst, eon, slot, txp, ids, k) },
@@ -347,14 +375,22 @@ func (w *World) BuildC05(fl string, m CMsg) p2pmsg.Message {
 			DecayStartTimestamp: 1, DecayEndTimestamp: 2, DispatchTimestamp: 3}
 		for i := 0; i < m.Nids; i++ {
 			id := hex.EncodeToString(w.det(fmt.Sprintf("idprefix-%d", i), 32))
-			if m.Idhex == "nonhex" {
+			if m.Badid == "all" || (m.Badid == "first" && i == 0) || (m.Badid == "last" && i == m.Nids-1) {
 				id = fmt.Sprintf("zz-not-hex-%d", i)
 			}
 			out.Identities = append(out.Identities, id)
-			out.TxHashes = append(out.TxHashes, "0x"+hex.EncodeToString(w.det(fmt.Sprintf("txh-%d", i), 32)))
 		}
-		if !m.Match {
-			out.TxHashes = append(out.TxHashes, "0x"+hex.EncodeToString(w.det("txh-extra", 32)))
+		ntx := m.Nids
+		switch m.Lens {
+		case "idsMore":
+			if ntx > 0 {
+				ntx--
+			}
+		case "txMore":
+			ntx++
+		}
+		for i := 0; i < ntx; i++ {
+			out.TxHashes = append(out.TxHashes, "0x"+hex.EncodeToString(w.det(fmt.Sprintf("txh-%d", i), 32)))
 		}
 		switch m.Block {
 		case "known":
